@@ -203,6 +203,7 @@ func runC02(c *Ctx) {
 	c.Emit("file", "metadata.NewFSMetadata save/load vs Backends.file_save/file_load", im,
 		"option (list (N * doc)) * option (list (N * doc) * list N) * list N * (list (N * doc) * bool)", "chk_file", fc, fr, 300)
 	runC02Wire(c)
+	runC02ReadOnly(c)
 	c.Emit("ro", "metadata.NewReadMetadata vs Backends.ro_save", im,
 		"option (list (N * doc)) * (list (N * doc) * list N) * list N * (list (N * doc) * bool)", "chk_ro", rc, rr, 300)
 }
